@@ -454,6 +454,29 @@ def lib_root(api_info, options=()):
     return ".".join([s.lower() for s in ns] + [mod])
 
 
+def add_subpackage(api, rng, with_service):
+    """A target file in the proto sub-package <pkg>.sub whose types the main file uses (C01 quantifier: 'files in
+    proto sub-packages').  Known findings C01-subpackage-*."""
+    pkg = api.info["pkg"]
+    P = "." + pkg
+    main = [x for x in api.files if x.pb.name.endswith(f"/{api.info['name']}.proto")][0]
+    fs = File(pkg.replace(".", "/") + "/sub/parts.proto", pkg + ".sub", deps=list(STD_DEPS))
+    m = fs.message("Part")
+    m.field("id", "string")
+    fs.enum("PartKind", "PART_KIND_UNSPECIFIED", "BOLT")
+    main.pb.dependency.append(fs.pb.name)
+    holder = main.message("PartHolder")
+    holder.field("part", P + ".sub.Part")
+    holder.field("kind", "enum:" + P + ".sub.PartKind")
+    if with_service:
+        s2 = fs.service("Parts", host=api.info["host"])
+        s2.rpc("GetPart", P + ".sub.Part", P + ".sub.Part")
+        api.tags.add("subpackage-service")
+    api.files.insert(0, fs)
+    api.targets.insert(0, fs.pb.name)
+    api.tags.add("subpackage")
+
+
 def wellformed(rng, name, zero_ns=False):
     """Conventional core plus the extra shapes of DESIGN §4.  zero_ns: allow a
     package without namespace segment (known finding C01-zero-namespace)."""
